@@ -368,6 +368,9 @@ func runClient(c *Case, l *clayout, cuts []int) ([]Result, error) {
 				idle = 0
 			}
 			last = state
+			if idle >= idlePolls && !go9pQuiescent("go9p.(*Clnt).recv") {
+				idle = 0 // something is still runnable inside the library: keep waiting
+			}
 			if idle >= idlePolls {
 				return nil, fmt.Errorf("round %d: the client has read the whole reply stream and is idle, but %d calls never returned (%d requests still outstanding)", ri, round[len(round)-1].id+1-int(atomic.LoadInt64(&returned)), out)
 			}
